@@ -29,9 +29,10 @@ func init() {
 			"termination is observed by the per-run watchdog (a hang makes the run inconclusive, with the case id in the worker's current-case file)",
 			"the prefix relation is event-for-event on (delta, canonical message bytes); a missing end-of-track at the end of the last track is a legitimate prefix",
 		},
-		Require: []string{"many_chunks_small_stack_reads", "shape_additivity_checks", "reads_after_failed_read", "sequence_failed_reads", "truncations", "truncation_results_ok_value", "truncation_results_error", "mutants", "random_strings", "targeted", "alloc_measurements", "reads_with_log", "big_payload_truncations", "proportionality_checks", "concurrent_truncation_files", "reads_from_sources_without_len_or_seek", "kept_truncation_results_rechecked", "proportionality_checks_event_counts"},
-		UsesCur: true,
-		Run:     runC05,
+		Require:     []string{"many_chunks_small_stack_reads", "shape_additivity_checks", "reads_after_failed_read", "sequence_failed_reads", "truncations", "truncation_results_ok_value", "truncation_results_error", "mutants", "random_strings", "targeted", "alloc_measurements", "reads_with_log", "big_payload_truncations", "proportionality_checks", "concurrent_truncation_files", "reads_from_sources_without_len_or_seek", "kept_truncation_results_rechecked", "proportionality_checks_event_counts"},
+		UsesCur:     true,
+		Int32Worker: true,
+		Run:         runC05,
 	})
 }
 
@@ -785,6 +786,31 @@ func runC05(c *mon.Ctx) {
 		if i == 2 {
 			c.Sample("targeted", in)
 		}
+	})
+	// ---- the same hostile inputs where int has 32 bits (worker built with GOARCH=386): declared lengths and counts of
+	// 2^31 and more become negative or wrap when they are converted to int
+	c.Each32("targeted-32bit", int64(len(tg)), func(i int64, _ *mon.Rand) {
+		b := tg[i].b
+		c.CurPayload(b)
+		in := map[string]any{"label": tg[i].label, "bytes": mon.Hex(head(b, 400)), "platform": "int has 32 bits (GOARCH=386)"}
+		for kind := 1; kind <= c05Kinds; kind++ {
+			k.kind = kind
+			k.read(b, "targeted-32bit", in, false)
+		}
+		k.kind = 0
+		c.Count("reads_on_a_32_bit_platform", c05Kinds)
+		if len(b) < 400 {
+			for cut := 0; cut < len(b); cut++ {
+				k.read(b[:cut], "targeted-32bit-truncated", map[string]any{"label": tg[i].label, "bytes": mon.Hex(b[:cut]), "platform": "int has 32 bits"}, false)
+			}
+		}
+	})
+	c.Each32("mutants-32bit", c.N(20_000, 400_000), func(i int64, r *mon.Rand) {
+		f := gen.SMFFile(r, gen.FileOpts{MaxTracks: 3, MaxEvents: 10, AllowBig: false, Aliens: i%3 == 0, PaddedVLQ: true, Running: true})
+		b := mutate(r, f.Bytes(nil))
+		c.CurPayload(b)
+		k.read(b, "mutant-32bit", map[string]any{"bytes": mon.Hex(b), "platform": "int has 32 bits (GOARCH=386)"}, false)
+		c.Count("reads_on_a_32_bit_platform", 1)
 	})
 	_ = io.EOF
 }
